@@ -64,6 +64,17 @@ def snapshot_invariant(con: sqlite3.Connection) -> list[tuple[str, str]]:
             out.append(("missing-stage-event", f"stage {ident}: {len(t)} durable completion(s) by CompleteStage but {len(e)} event(s)"))
         elif [x for x in e] != t and all(x != "?" for x in e):
             out.append(("stage-event-status", f"stage {ident}: events carry {e}, transitions were {t}"))
+    # stage.skipped is a completion event too ("no completion event for a stage ... whose completion was not committed"): the
+    # events SkipStage wrote must not outnumber the durable NOT_STARTED -> SKIPPED transitions it committed
+    ev_skip: dict[str, int] = {}
+    for eid, in con.execute("SELECT entity_id FROM events WHERE source_handler = 'SkipStageHandler' AND event_type = 'stage.skipped'"):
+        ev_skip[eid] = ev_skip.get(eid, 0) + 1
+    tr_skip: dict[str, int] = {}
+    for ident, in con.execute("SELECT id FROM v_audit WHERE kind = 'stage' AND writer = 'SkipStage' AND old IS NOT NULL AND new = 'SKIPPED' AND old != new"):
+        tr_skip[ident] = tr_skip.get(ident, 0) + 1
+    for ident in sorted(set(ev_skip)):
+        if ev_skip[ident] > tr_skip.get(ident, 0):
+            out.append(("phantom-skip-event", f"stage {ident}: {ev_skip[ident]} stage.skipped event(s) but {tr_skip.get(ident, 0)} durable skip(s) by SkipStage"))
     ev_task: dict[str, int] = {}
     for eid, in con.execute(
             "SELECT entity_id FROM events WHERE source_handler = 'CompleteTaskHandler' AND event_type IN (?,?)", TASK_EVENTS):
